@@ -1,5 +1,5 @@
 //@PROBE file=src/utils/bbox.rs test=verif_probe_bbox_polygon_c19 clauses=bbox_polygon
-//@BOUND ltwh round trip over width x height magnitudes {0.01 .. 1e4} (10 x 10, three positions, per-coordinate relative tolerance); centres {0, 1, -37.5, 1e3, 1e4} x sizes (height {1e-2, 0.1, 1, 40, 1e3} x aspect {0.1, 0.5, 1, 3}) x angles {None, 0, pi/6, pi/2, 2.5, 7.0, -1.0}; vertices against an f64 reference of the rotated rectangle computed from the box fields (tolerance 4 ulp of f32 at the coordinate magnitude), shoelace area / centroid / vertex radius against area() / centre / get_radius() (1e-4 relative); equality of both box types on pairs differing in exactly one coordinate by +-delta across the EPS boundary (position 0..1e4 x size 1e-2..1e3 independently, both argument orders); ltwh -> universal -> ltwh round trip (4 ulp-scale tolerance: 1e-5 relative to the magnitudes involved)
+//@BOUND ltwh round trip over width x height magnitudes {0.01 .. 1e4} (10 x 10, three positions, per-coordinate relative tolerance); centres {0, 1, -37.5, 1e3, 1e4} x sizes (height {1e-2, 0.1, 1, 40, 1e3} x aspect {0.1, 0.5, 1, 3}) x angles {None, 0, pi/6, pi/2, 2.5, 7.0, -1.0, 1000, -2500}; equality of boxes built through new() / rotate() with angles a hair apart on either side of zero; vertices against an f64 reference of the rotated rectangle computed from the box fields (tolerance 4 ulp of f32 at the coordinate magnitude), shoelace area / centroid / vertex radius against area() / centre / get_radius() (1e-4 relative); equality of both box types on pairs differing in exactly one coordinate by +-delta across the EPS boundary (position 0..1e4 x size 1e-2..1e3 independently, both argument orders); ltwh -> universal -> ltwh round trip (4 ulp-scale tolerance: 1e-5 relative to the magnitudes involved)
 #[cfg(test)]
 mod verif_probe_bbox_polygon_c19 {
     // Bounded stand-in for the representation clauses of C19 that the Kani harnesses cannot pin (sin/cos are
@@ -11,7 +11,7 @@ mod verif_probe_bbox_polygon_c19 {
     fn verif_probe_bbox_polygon_c19() {
         let mut failures: Vec<String> = vec![];
         let (mut cases, mut nontrivial) = (0u64, 0u64);
-        let angles: [Option<f32>; 7] = [None, Some(0.0), Some(std::f32::consts::FRAC_PI_6), Some(std::f32::consts::FRAC_PI_2), Some(2.5), Some(7.0), Some(-1.0)];
+        let angles: [Option<f32>; 9] = [None, Some(0.0), Some(std::f32::consts::FRAC_PI_6), Some(std::f32::consts::FRAC_PI_2), Some(2.5), Some(7.0), Some(-1.0), Some(1000.0), Some(-2500.0)]; // the last two: many turns - the rectangle is rotated by the angle AS GIVEN
         for xc in [0.0f32, 1.0, -37.5, 1.0e3, 1.0e4] { for yc in [0.0f32, 1.0e4, -2.5] {
             for h in [1.0e-2f32, 0.1, 1.0, 40.0, 1.0e3] { for asp in [0.1f32, 0.5, 1.0, 3.0] {
                 let mut polys: Vec<Vec<(f64, f64)>> = vec![];
@@ -123,6 +123,21 @@ mod verif_probe_bbox_polygon_c19 {
                 if actual < 0.99 * eps && !ab { failures.push(format!("PROBE input: universal boxes at position {} size {} differing in {} by {} (< EPS): bbox_polygon.universal_equality_holds_within_epsilon: reported unequal", pos, size, name, actual)); }
             }
         } } } }
+        // ---- equality of boxes built through the constructors / the angle setter, angles a hair apart on either side of zero
+        for base in [0.0f32, 0.7, -0.7] { for delta in [0.3 * eps, 0.8 * eps, 3.0 * eps, 30.0 * eps] { for sign in [1.0f32, -1.0] {
+            cases += 1;
+            let d = sign * delta;
+            let a = Universal2DBox::new(5.0, 6.0, Some(base), 1.5, 10.0);
+            let b = Universal2DBox::new(5.0, 6.0, Some(base + d), 1.5, 10.0);
+            let c = Universal2DBox::new(5.0, 6.0, Some(1.0), 1.5, 10.0).rotate(base + d);
+            let actual = ((base + d) - base).abs();
+            for (x, how) in [(&b, "new()"), (&c, "rotate()")] {
+                let (ab, ba) = (a == *x, *x == a);
+                if ab != ba { failures.push(format!("PROBE input: universal boxes built with {} at angles {} and {}: bbox_polygon.universal_equality_symmetric", how, base, base + d)); }
+                if actual < 0.99 * eps && !ab { failures.push(format!("PROBE input: universal boxes built with {} at angles {} and {} (differing by {} < EPS): bbox_polygon.universal_equality_holds_within_epsilon: reported unequal", how, base, base + d, actual)); }
+                if actual > 1.01 * eps && ab { failures.push(format!("PROBE input: universal boxes built with {} at angles {} and {} (differing by {} > EPS): bbox_polygon.universal_equality_fails_beyond_epsilon: reported equal", how, base, base + d, actual)); }
+            }
+        } } }
         eprintln!("PROBE cases={} nontrivial={}", cases, nontrivial);
         for f in failures.iter().take(12) { eprintln!("{}", f); }
         assert!(failures.is_empty(), "PROBE found {} failing inputs; first: {}", failures.len(), failures[0]);
